@@ -1,12 +1,25 @@
 import CedarVerif.Lemmas.TCOps
 import CedarVerif.Lemmas.TCRemove
 import CedarVerif.Lemmas.TCUpsert
+import CedarVerif.Lemmas.TCFrom
+import CedarVerif.Lemmas.TCCycle
+import CedarVerif.Lemmas.TCAccept
+import CedarVerif.Lemmas.TCUpsertMulti
 import CedarVerif.Cedar.Eval
 /-
 C04 — Hierarchy membership equals parent-reachability after any store history.
 Property theorems about the mirror in `Cedar/TC.lean` (helpers: Lemmas/TC.lean, TCRepair.lean, TCOps.lean).
 Statements that are not proved at full strength are kept visible as `def …Full : Prop`; what is proved of
 them is named `…_partial` and says what is missing.
+
+STATE (last section of this file): of the three residual hypotheses of `history_inv_partial`,
+`AcceptedAcyclic` is proved (`accepted_acyclic`: completeness of the cycle detection of `repair_tc`),
+`FromPreserves` is proved (`from_preserves`), and `UpsertMultiPreserves` is REFUTED
+(`upsert_multi_repeated_uid_counterexample`, a genuine defect of `upsert_entities` for batches naming a uid
+twice, reproduced on the implementation) and proved under the precise hypothesis "uids of the batch pairwise
+distinct" (`upsert_inv`, any batch length). Hence `history_inv` / `in_iff_reach_history_full` hold without
+residual hypotheses for histories whose upsert batches name each uid at most once; `AddInvFull` holds
+(`add_inv`); `repair_correct` is the two-sided statement about `repair_tc`.
 -/
 namespace Cedar.C04
 open Cedar Cedar.TC
@@ -196,7 +209,7 @@ theorem acyclic_pg (s : Store α) : Acyclic (parentGraph s) ↔ ∀ x, ¬ Reach 
   have : PGraph.get (parentGraph s) = shape s := funext (pg_get s)
   unfold Acyclic; rw [this]
 
-/-- full statement for `add_entities` -/
+/-- full statement for `add_entities`. PROVED: `add_inv`. -/
 def AddInvFull (α : Type) [DecidableEq α] : Prop :=
   ∀ (s : Store α) (es : List (α × Node α)), Inv s → PureBatch es →
     (∀ s', addEntities .compute s es = .ok s' → Inv s' ∧ parentGraph s' = specAdd (parentGraph s) es) ∧
@@ -242,7 +255,9 @@ example : (removeEntities .compute
     [(0, ({ parents := [1, 2], indirect := [9, 7] } : Node Nat)), (1, { parents := [9, 7], indirect := [] }),
      (2, { parents := [9], indirect := [] })] [1]).toOption.map (fun s => ancestors s 0) = some [2, 9] := by decide
 
-/-- full statement for `upsert_entities` (arbitrary batches, processed sequentially by the code) -/
+/-- full statement for `upsert_entities` (arbitrary batches, processed sequentially by the code).
+    FALSE for batches naming a uid twice (stale ancestors, and then also spurious `cycle` reports are
+    possible); proved for batches with pairwise distinct uids: `upsert_inv`. -/
 def UpsertInvFull (α : Type) [DecidableEq α] : Prop :=
   ∀ (s : Store α) (es : List (α × Node α)), Inv s → PureBatch es →
     (∀ s', upsertEntities .compute s es = .ok s' → Inv s' ∧ parentGraph s' = specUpsert (parentGraph s) es) ∧
@@ -352,21 +367,26 @@ def OpPreserves (α : Type) [DecidableEq α] : Prop :=
   ∀ (s : Store α) (o : Op α) (s' : Store α), Inv s → PureOp o → applyOp s o = .ok s' → Inv s'
 
 /-- full statement: after any history of pure operations (failed ones leave the store unchanged) the
-    invariant holds -/
+    invariant holds. FALSE (`upsert_multi_repeated_uid_counterexample`); true and proved when every upsert
+    batch names each uid at most once (`history_inv`). -/
 def HistoryInvFull (α : Type) [DecidableEq α] : Prop :=
   ∀ ops : List (Op α), (∀ o, o ∈ ops → PureOp o) → Inv (runOps [] ops)
 
-/-- residual 1 (completeness of cycle detection): an accepted add/upsert has an acyclic parent graph -/
+/-- residual 1 (completeness of cycle detection): an accepted add/upsert has an acyclic parent graph.
+    PROVED: `accepted_acyclic`. -/
 def AcceptedAcyclic (α : Type) [DecidableEq α] : Prop :=
   ∀ (s : Store α) (o : Op α) (s' : Store α), Inv s → PureOp o → applyOp s o = .ok s' →
     ∀ x, ¬ Reach (shape s') x x
 
-/-- residual 2: upsert batches that do not consist of exactly one entity -/
+/-- residual 2: upsert batches that do not consist of exactly one entity.
+    FALSE as stated (`upsert_multi_preserves_refuted`: a batch naming a uid twice leaves a stale ancestor);
+    true and proved for batches with pairwise distinct uids (`UpsertDistinctPreserves`, `upsert_inv`). -/
 def UpsertMultiPreserves (α : Type) [DecidableEq α] : Prop :=
   ∀ (s : Store α) (es : List (α × Node α)) (s' : Store α), Inv s → PureBatch es → es.length ≠ 1 →
     upsertEntities .compute s es = .ok s' → Inv s'
 
-/-- residual 3: the contract of `compute_tc` inside `from_entities` (SCC internals not mirrored) -/
+/-- residual 3: the contract of `compute_tc` inside `from_entities` (SCC internals not mirrored).
+    PROVED for the model's `closure`: `from_preserves`. -/
 def FromPreserves (α : Type) [DecidableEq α] : Prop :=
   ∀ (es : List (α × Node α)) (s' : Store α), PureBatch es → fromEntities .compute es = .ok s' → Inv s'
 
@@ -461,5 +481,278 @@ theorem in_iff_reach_history (h1 : AcceptedAcyclic EntityUID) (h2 : UpsertMultiP
     (e a : EntityUID) :
     inE (toEntities (runOps [] ops)) e a = true ↔ a = e ∨ Reach (shape (runOps [] ops)) e a :=
   in_iff_reach _ (history_inv_partial h1 h2 h3 ops hp) e a
+
+/-! ### the residuals, discharged or refuted -/
+
+/-- residual 3 discharged: whatever the contract `closure` (standing for `compute_tc`) returns on a batch
+    without indirect ancestors satisfies the invariant: saturation keeps the direct parents, adds only
+    edges justified by parent-reachability and keeps parents/indirect disjoint; the final `stable` and
+    `enforceDag` checks give closedness and acyclicity -/
+theorem from_preserves : FromPreserves α :=
+  fun es s' hpb hok => fromEntities_inv es s' hpb hok
+
+/-- residual 1 discharged (COMPLETENESS of the cycle detection): a pure from/add/upsert/remove that is
+    accepted has an acyclic parent graph. For add/upsert (ANY batch, repeated uids included): the records
+    that stay untouched are unchanged records of a store satisfying the invariant, hence complete for the
+    new parent graph and without self-edge, so every cycle runs through touched nodes only; the first
+    node on a cycle visited by the DFS of `repair_tc` gets an edge to itself (`addAnc_cspec`), which
+    `enforce_dag_from_tc_for` finds because that node is touched. -/
+theorem accepted_acyclic : AcceptedAcyclic α := by
+  intro s o s' hinv hp hok
+  apply applyOp_acyclic s o s' hinv ?_ hok
+  cases o with
+  | «from» m es => exact hp
+  | add m es => exact hp
+  | upsert m es => exact hp.1
+  | remove m us => exact hp
+
+/-- `repair_correct` at full strength under the precondition the callers establish (justified edges;
+    untouched records complete and WITHOUT SELF-EDGE — the last conjunct replaces the third hypothesis of
+    `RepairCorrectFull`, which is too weak: a cycle among complete untouched records next to an unrelated
+    touched cycle is not excluded by it): `repair_tc` succeeds with an exactly closed store iff the parent
+    graph is acyclic and reports `cycle` otherwise -/
+theorem repair_correct (s : Store α) (t : List α) (hs : Sound (shape s) s)
+    (hun : ∀ k, k ∈ keys s → k ∉ t → Complete (shape s) s k)
+    (hnoself : ∀ k n, TC.get s k = some n → k ∉ t → k ∉ n.out) :
+    ((∀ x, ¬ Reach (shape s) x x) → ∃ s', repairTc t s = .ok s' ∧ TC.Ext s s' ∧ Exact (shape s) s') ∧
+    ((∃ x, Reach (shape s) x x) → repairTc t s = .error .cycle) :=
+  ⟨repair_correct_partial s t hs hun, repairTc_complete s t hun hnoself⟩
+
+example : repairTc [0, 1, 2] [(0, ({ parents := [1], indirect := [] } : Node Nat)),
+    (1, { parents := [2], indirect := [] }), (2, { parents := [0], indirect := [] }),
+    (3, { parents := [0], indirect := [1, 2] })] = .error .cycle := by rfl
+
+/-- `AddInvFull` holds: `add_entities` (ComputeNow, any batch without indirect ancestors) on a store
+    satisfying the invariant is accepted exactly when the batch loop succeeds and the spec's parent graph
+    is acyclic; then it re-establishes the invariant with the spec's parent graph; otherwise it reports
+    the loop's `duplicate` resp. `cycle` -/
+theorem add_inv : AddInvFull α := by
+  intro s es hinv hp
+  obtain ⟨a1, a2⟩ := add_inv_partial s es hinv hp
+  constructor
+  · intro s' hok
+    have hac := accepted_acyclic s (.add .compute es) s' hinv ⟨rfl, hp⟩ hok
+    cases hl : addLoop s [] es with
+    | error e => simp [addEntities, hl] at hok
+    | ok st =>
+      obtain ⟨s1, t⟩ := st
+      have hrep : repairTc (touchPass s1 t) s1 = .ok s' := by
+        simpa [addEntities, hl, finish] using hok
+      have hsh := shape_of_pg (repairTc_pg hrep)
+      obtain ⟨s'', h', hi, hpg⟩ := addEntities_ok s es hinv hp s1 t hl (hsh ▸ hac)
+      rw [h'] at hok; cases hok; exact ⟨hi, hpg⟩
+  · intro e
+    constructor
+    · exact a2 e
+    · rintro (h | ⟨rfl, ⟨st, hst⟩, hcyc⟩)
+      · simp [addEntities, h]
+      · obtain ⟨s1, t⟩ := st
+        have l4 := (addLoop_spec es s [] s1 t hst hp).2.2.2
+        apply addEntities_cyclic s es hinv hp s1 t hst
+        apply Classical.byContradiction
+        intro hne
+        apply hcyc
+        rw [← l4]
+        exact (acyclic_pg s1).mpr (fun x hx => hne ⟨x, hx⟩)
+
+omit [DecidableEq α] in
+theorem reach_elim {P : α → Option (List α)} {x y : α} (h : Reach P x y) :
+    ∃ ps, P x = some ps ∧ (y ∈ ps ∨ ∃ z, z ∈ ps ∧ Reach P z y) := by
+  cases h with
+  | edge hp hy => exact ⟨_, hp, Or.inl hy⟩
+  | step hp hz hzy => exact ⟨_, hp, Or.inr ⟨_, hz, hzy⟩⟩
+
+/-- the witness: x=0 → w=1 → u=2, w → v=3 → y=4 -/
+def cexBase : List (Nat × Node Nat) :=
+  [(0, { parents := [1], indirect := [] }), (1, { parents := [2, 3], indirect := [] }),
+   (2, { parents := [], indirect := [] }), (3, { parents := [4], indirect := [] }),
+   (4, { parents := [], indirect := [] })]
+
+/-- one batch: u ↦ {y}, u ↦ {}, w ↦ {} -/
+def cexBatch : List (Nat × Node Nat) :=
+  [(2, { parents := [4], indirect := [] }), (2, { parents := [], indirect := [] }),
+   (1, { parents := [], indirect := [] })]
+
+theorem cex_run :
+    (TC.get (runOps [] [Op.from .compute cexBase, Op.upsert .compute cexBatch]) 0).map
+        (fun n => (n.parents, n.indirect)) = some ([1], [4]) ∧
+    (TC.get (runOps [] [Op.from .compute cexBase, Op.upsert .compute cexBatch]) 1).map
+        (fun n => (n.parents, n.indirect)) = some ([], []) := by decide +kernel
+
+/-- FINDING (genuine, reproduced on the implementation — see known_findings.jsonl
+    `C04-upsert-batch-repeated-uid-stale-ancestor`): `HistoryInvFull` is FALSE. An upsert batch that names
+    a uid twice leaves a stale indirect ancestor: after `from [x<w, w<u,v, u<, v<y, y<]` and the single call
+    `upsert [u<y, u<, w<]` the record of x still lists y although x → w and w has no parents. The second
+    overwrite of u strips u's ancestors {y} only from records that still list u (w, not x — x lost u in
+    the first strip); the overwrite of w then strips only w's current ancestors from x. -/
+theorem upsert_multi_repeated_uid_counterexample : ¬ HistoryInvFull Nat := by
+  intro h
+  have hinv := h [Op.from .compute cexBase, Op.upsert .compute cexBatch] (by
+    intro o ho
+    simp only [List.mem_cons, List.mem_nil_iff, or_false] at ho
+    rcases ho with rfl | rfl
+    · exact ⟨rfl, by intro e he; simp only [cexBase, List.mem_cons, List.mem_nil_iff, or_false] at he
+                     rcases he with rfl | rfl | rfl | rfl | rfl <;> rfl⟩
+    · exact ⟨rfl, by intro e he; simp only [cexBatch, List.mem_cons, List.mem_nil_iff, or_false] at he
+                     rcases he with rfl | rfl | rfl <;> rfl⟩)
+  obtain ⟨hrun0, hrun1⟩ := cex_run
+  generalize runOps [] [Op.from .compute cexBase, Op.upsert .compute cexBatch] = sf at hinv hrun0 hrun1
+  cases hg0 : TC.get sf 0 with
+  | none => rw [hg0] at hrun0; cases hrun0
+  | some n0 =>
+    cases hg1 : TC.get sf 1 with
+    | none => rw [hg1] at hrun1; cases hrun1
+    | some n1 =>
+      rw [hg0] at hrun0; rw [hg1] at hrun1
+      simp only [Option.map_some, Option.some.injEq, Prod.mk.injEq] at hrun0 hrun1
+      obtain ⟨hp0, hi0⟩ := hrun0
+      obtain ⟨hp1, _⟩ := hrun1
+      have h4 : (4 : Nat) ∈ n0.out := by simp [Node.out, hp0, hi0]
+      have hr := (hinv.exact 0 n0 hg0 4).mp h4
+      obtain ⟨ps, hps, hcase⟩ := reach_elim hr
+      rw [shape_some hg0, hp0] at hps
+      cases hps
+      rcases hcase with hc | ⟨z, hz, hzy⟩
+      · simp at hc
+      · simp only [List.mem_singleton] at hz
+        subst hz
+        obtain ⟨ps1, hps1, hcase1⟩ := reach_elim hzy
+        rw [shape_some hg1, hp1] at hps1
+        cases hps1
+        simp at hcase1
+
+/-- … hence residual 2 as stated (any batch of length ≠ 1) is false as well -/
+theorem upsert_multi_preserves_refuted : ¬ UpsertMultiPreserves Nat := by
+  intro h2
+  exact upsert_multi_repeated_uid_counterexample (history_inv_partial accepted_acyclic h2 from_preserves)
+
+/-! ### `upsert_entities` and histories, with the precise hypothesis: uids of an upsert batch pairwise distinct -/
+
+/-- residual 2 with the hypothesis that makes it true: upsert batches of ANY length whose uids are
+    pairwise distinct -/
+def UpsertDistinctPreserves (α : Type) [DecidableEq α] : Prop :=
+  ∀ (s : Store α) (es : List (α × Node α)) (s' : Store α), Inv s → PureBatch es → (es.map (·.1)).Nodup →
+    upsertEntities .compute s es = .ok s' → Inv s'
+
+/-- `UpsertInvFull` restricted to batches with pairwise distinct uids holds at full strength (any batch
+    length; overwriting several nodes of one chain, in any order; inserting new records; dangling parents):
+    accepted exactly when the spec's parent graph is acyclic, then the invariant is re-established — stale
+    ancestors stripped from all descendants, alternative paths restored by the repair — with the spec's
+    parent graph; otherwise `cycle` -/
+theorem upsert_inv (s : Store α) (es : List (α × Node α)) (hinv : Inv s) (hp : PureBatch es)
+    (hnd : (es.map (·.1)).Nodup) :
+    (∀ s', upsertEntities .compute s es = .ok s' → Inv s' ∧ parentGraph s' = specUpsert (parentGraph s) es) ∧
+    (∀ e, upsertEntities .compute s es = .error e ↔ (e = .cycle ∧ ¬ Acyclic (specUpsert (parentGraph s) es))) := by
+  obtain ⟨u1, u2⟩ := upsertEntities_distinct s es hinv hp hnd
+  have hpg := pg_upsertFold es (s, [])
+  simp only at hpg
+  constructor
+  · intro s' hok
+    have hac := accepted_acyclic s (.upsert .compute es) s' hinv ⟨rfl, hp⟩ hok
+    have hrep : repairTc (touchPass (es.foldl upsertOne (s, [])).1 (es.foldl upsertOne (s, [])).2)
+        (es.foldl upsertOne (s, [])).1 = .ok s' := by
+      simpa [upsertEntities, finish] using hok
+    have hsh := shape_of_pg (repairTc_pg hrep)
+    obtain ⟨s'', h', hi, hpg'⟩ := u1 (hsh ▸ hac)
+    rw [h'] at hok; cases hok; exact ⟨hi, hpg'⟩
+  · intro e
+    constructor
+    · intro h
+      obtain ⟨h1, x, hx⟩ := u2 e h
+      exact ⟨h1, fun hac => (acyclic_pg _).mp (hpg ▸ hac) x hx⟩
+    · rintro ⟨rfl, hcyc⟩
+      apply upsertEntities_cyclic s es hinv
+      apply Classical.byContradiction
+      intro hne
+      apply hcyc
+      rw [← hpg]
+      exact (acyclic_pg _).mpr (fun x hx => hne ⟨x, hx⟩)
+
+theorem upsert_distinct_preserves : UpsertDistinctPreserves α :=
+  fun s es s' hinv hp hnd hok => ((upsert_inv s es hinv hp hnd).1 s' hok).1
+
+/-- non-vacuity: x → a → t, x → b → t, a → p; ONE batch replaces `a` by a root and `b` by `b → p`:
+    `x` loses `t` (both paths are cut) and keeps `p` (now through `b`) -/
+example : (upsertEntities .compute
+    [(0, ({ parents := [1, 2], indirect := [9, 7] } : Node Nat)), (1, { parents := [9, 7], indirect := [] }),
+     (2, { parents := [9], indirect := [] })]
+    [(1, { parents := [], indirect := [] }), (2, { parents := [7], indirect := [] })]).toOption.map
+       (fun s => ancestors s 0) = some [1, 2, 7] := by decide
+
+/-- an upsert names every uid at most once -/
+def DistinctOp : Op α → Prop
+  | .upsert _ es => (es.map (·.1)).Nodup
+  | _ => True
+
+/-- every accepted pure operation whose upsert batches name each uid at most once preserves the invariant
+    (no residual hypothesis) -/
+theorem op_preserves (s : Store α) (o : Op α) (s' : Store α) (hinv : Inv s) (hp : PureOp o)
+    (hd : DistinctOp o) (hok : applyOp s o = .ok s') : Inv s' := by
+  cases o with
+  | «from» m es => exact from_preserves es s' hp.2 (by obtain ⟨rfl, _⟩ := hp; exact hok)
+  | remove m us =>
+    have hm : m = .compute := hp
+    subst hm
+    obtain ⟨s'', h', hi, _⟩ := remove_inv s us hinv
+    simp only [applyOp] at hok
+    rw [h'] at hok; cases hok; exact hi
+  | add m es =>
+    obtain ⟨rfl, hpb⟩ := hp
+    exact ((add_inv s es hinv hpb).1 s' hok).1
+  | upsert m es =>
+    obtain ⟨rfl, hpb⟩ := hp
+    exact upsert_distinct_preserves s es s' hinv hpb hd hok
+
+/-- C04 `history_inv`, unconditional: after ANY history of pure operations (from/add/upsert/remove with
+    ComputeNow and inputs without indirect ancestors; failed operations leave the store unchanged) whose
+    upsert batches name each uid at most once, the invariant holds: ancestors = Reach⁺ over the
+    direct-parent links of the records present, acyclic, parents ∩ indirect = ∅. The restriction on upsert
+    batches is necessary: `upsert_multi_repeated_uid_counterexample`. -/
+theorem history_inv (ops : List (Op α)) (hp : ∀ o, o ∈ ops → PureOp o ∧ DistinctOp o) : Inv (runOps [] ops) := by
+  have gen : ∀ (ops : List (Op α)) (s : Store α), Inv s → (∀ o, o ∈ ops → PureOp o ∧ DistinctOp o) →
+      Inv (runOps s ops) := by
+    intro ops
+    induction ops with
+    | nil => intro s hs _; exact hs
+    | cons o ops ih =>
+      intro s hs hp
+      simp only [runOps, List.foldl_cons]
+      apply ih
+      · unfold stepOp
+        cases ha : applyOp s o with
+        | error e => exact hs
+        | ok s' => exact op_preserves s o s' hs (hp o List.mem_cons_self).1 (hp o List.mem_cons_self).2 ha
+      · exact fun o' ho' => hp o' (List.mem_cons_of_mem _ ho')
+  exact gen ops [] inv_empty hp
+
+/-- non-vacuity of `history_inv`: from, a two-entity upsert, a rejected cyclic add, a remove -/
+example : ∀ o, o ∈ [Op.from .compute [(0, ({ parents := [1], indirect := [] } : Node Nat)),
+      (1, { parents := [2], indirect := [] })],
+    Op.upsert .compute [(2, { parents := [3], indirect := [] }), (1, { parents := [2, 4], indirect := [] })],
+    Op.add .compute [(3, { parents := [0], indirect := [] })], Op.remove .compute [1]] →
+    PureOp o ∧ DistinctOp o := by
+  intro o ho
+  simp only [List.mem_cons, List.mem_nil_iff, or_false] at ho
+  rcases ho with rfl | rfl | rfl | rfl
+  · exact ⟨⟨rfl, by intro e he; simp only [List.mem_cons, List.mem_nil_iff, or_false] at he
+                    rcases he with rfl | rfl <;> rfl⟩, trivial⟩
+  · exact ⟨⟨rfl, by intro e he; simp only [List.mem_cons, List.mem_nil_iff, or_false] at he
+                    rcases he with rfl | rfl <;> rfl⟩, by simp [DistinctOp]⟩
+  · exact ⟨⟨rfl, by intro e he; simp only [List.mem_cons, List.mem_nil_iff, or_false] at he
+                    rcases he with rfl; rfl⟩, trivial⟩
+  · exact ⟨rfl, trivial⟩
+
+example : (runOps [] [Op.from .compute [(0, ({ parents := [1], indirect := [] } : Node Nat)),
+      (1, { parents := [2], indirect := [] })],
+    Op.upsert .compute [(2, { parents := [3], indirect := [] }), (1, { parents := [2, 4], indirect := [] })],
+    Op.add .compute [(3, { parents := [0], indirect := [] })], Op.remove .compute [1]]).map
+      (fun kn => (kn.1, kn.2.out)) = [(0, []), (2, [3])] := by decide +kernel
+
+/-- C04, unconditional: in every state reached by a history of pure operations whose upsert batches name
+    each uid at most once, `e in a` is reflexive parent-reachability -/
+theorem in_iff_reach_history_full (ops : List (Op EntityUID)) (hp : ∀ o, o ∈ ops → PureOp o ∧ DistinctOp o)
+    (e a : EntityUID) :
+    inE (toEntities (runOps [] ops)) e a = true ↔ a = e ∨ Reach (shape (runOps [] ops)) e a :=
+  in_iff_reach _ (history_inv ops hp) e a
 
 end Cedar.C04
